@@ -164,6 +164,8 @@ def run_case_files(cid, imports, case_type, check_fn, cases, shard=400, defs="")
     cases: list of Gallina terms of type case_type; check_fn: Gallina term case_type -> bool.
     Writes work/<cid>/cases_k.v, runs them under xargs -P, returns (n_evaluated, [bad indices], error or None)
     """
+    if REPLAY is not None:
+        return len(cases), [], None
     d = os.path.join(WORK, cid)
     os.makedirs(d, exist_ok=True)
     for f in os.listdir(d):
@@ -206,6 +208,8 @@ def run_case_files(cid, imports, case_type, check_fn, cases, shard=400, defs="")
 
 def eval_terms(cid, imports, terms, tag="eval"):
     """Evaluate Gallina terms with vm_compute; returns list of printed strings (whitespace-normalised)"""
+    if REPLAY is not None:
+        return None, "replay mode: the model is not evaluated"
     d = os.path.join(WORK, cid)
     os.makedirs(d, exist_ok=True)
     path = os.path.join(d, f"{tag}.v")
@@ -222,6 +226,42 @@ def eval_terms(cid, imports, terms, tag="eval"):
     for p in parts:
         res.append(re.sub(r" : [^:]*$", "", p).strip())
     return res, out
+
+
+# ------------------------------------------------------------------ replaying one recorded failing input
+# A replay re-runs the implementation side of the check (same seed and tier, hence the same corpus; no Coq) and reports whether the
+# recorded failing input fails again: exit 1 if it does, 0 if it does not.
+REPLAY = None
+
+
+class ReplayDone(Exception):
+    pass
+
+
+def _keystr(k):
+    return json.dumps(k, sort_keys=True, default=str, ensure_ascii=False)
+
+
+def generic_replay(mod, cid, path):
+    global REPLAY
+    r = json.load(open(path, encoding="utf-8"))
+    if "key" not in r:
+        print("this replay file names the obligation that no longer checks; there is no failing input to replay")
+        return None
+    REPLAY = {"key": _keystr(r["key"]), "hit": None}
+    ctx = Ctx(cid, r.get("tier", "quick"), int(r.get("seed", 0)))
+    try:
+        mod.run(ctx)
+    except ReplayDone:
+        pass
+    hit, REPLAY = REPLAY["hit"], None
+    print("replayed input:", json.dumps(r.get("input"), ensure_ascii=False, default=str)[:1500])
+    print("recorded: expected", str(r.get("expected"))[:400], "| observed", str(r.get("observed"))[:400])
+    if hit:
+        print("now: fails again -- observed", str(hit["observed"])[:400], "|", hit["how"])
+        return 1
+    print("now: this input no longer fails")
+    return 0
 
 
 # ------------------------------------------------------------------ context / verdict
@@ -247,6 +287,9 @@ class Ctx:
 
     def fail(self, key, inp, expected, observed, how):
         self.failures.append({"key": key, "input": inp, "expected": expected, "observed": observed, "how": how})
+        if REPLAY is not None and _keystr(key) == REPLAY["key"]:
+            REPLAY["hit"] = self.failures[-1]
+            raise ReplayDone()
 
     def add_eval(self, n, nontrivial=0):
         self.coverage["evaluations"] += n
@@ -275,6 +318,8 @@ def prepare(ctx, gens, targets):
     """steps a+b of the verdict protocol. gens: Gen files this property depends on; targets: .vo files to build"""
     from vlib import translate
 
+    if REPLAY is not None:
+        return {}
     st = translate.regenerate()
     for g in gens:
         if st.get(g):
@@ -317,6 +362,8 @@ def prepare(ctx, gens, targets):
 
 
 def finish(ctx, assumptions=(), level="proof"):
+    if REPLAY is not None:
+        return 0
     os.makedirs(EVID, exist_ok=True)
     os.makedirs(REPLAYS, exist_ok=True)
     known, _fixed = load_known()
